@@ -19,7 +19,7 @@ from ..gen import values as V
 from ..gen.objects import ObjGen
 from ..oracles import validator
 from ..spec import model as M
-from .c02 import TYPES, cls_for
+from .c02 import BASES, TYPES, cls_for, make_base
 
 ID = "C04"
 LEVEL = "exploration"
@@ -164,10 +164,10 @@ def clause_b(ctx, ver, t, o, site, section, case):
 
 
 def wl_inject(ctx, rng, i):
-    ver, t = TYPES[i % len(TYPES)]
-    rnd = i // len(TYPES)
+    ver, bname = BASES[i % len(BASES)]
+    rnd = i // len(BASES)
     g = ObjGen(rng, ver, hostile=False, ts_max_digits=6, openvocab_custom=False)
-    o = g.make(t, "max" if rnd % 2 == 0 else "random", granular=False)
+    t, o = make_base(g, ver, bname, "max" if rnd % 2 == 0 else "random", granular=False)
     if validator.validate(o, ver):
         ctx.skip("generator error")
         return
@@ -232,7 +232,7 @@ def wl_registered(ctx, rng, i):
 
 
 WORKLOADS = [
-    Workload("inject", wl_inject, quick=lambda: len(TYPES) * 2, thorough=lambda: len(TYPES) * 12),
+    Workload("inject", wl_inject, quick=lambda: len(BASES) * 2, thorough=lambda: len(BASES) * 12),
     Workload("registered", wl_registered, quick=60, thorough=600),
 ]
 
